@@ -52,6 +52,31 @@ def rand_index(rng, labs, kind, mode, stats, allow_slice=True):
         return {'sl': [lo, hi, rng.choice([None, 1, 2, -1])]}
     return 'full'
 
+def mixed_valid_indices(rng, a, mode, stats):
+    """for an array of 3+ dimensions: per-dimension indices, all valid, mixing at least one scalar, one full slice and one
+    list / array / mask in a random arrangement (where numpy's own indexing would move or merge the indexed dimensions)"""
+    nd = len(a['dims'])
+    roles = ['scalar', 'full', 'adv'] + [rng.choice(['scalar', 'full', 'adv', 'adv']) for _ in range(nd - 3)]
+    rng.shuffle(roles)
+    if rng.random() < 0.5:
+        # the arrangement where numpy moves the indexed dimension to the front: a scalar and ONE list separated by full slices
+        roles = ['scalar'] + ['full'] * (nd - 2) + ['adv']
+        if rng.random() < 0.5: roles.reverse()
+    out = {}
+    for i, role in enumerate(roles):
+        labs = a['labels'][i]; m = len(labs)
+        if role == 'full' or m == 0: continue
+        if mode == 'position':
+            if role == 'scalar': out[i] = {'ps': rng.randrange(-m, m)}
+            elif rng.random() < 0.3: out[i] = {'m': [rng.random() < 0.6 for _ in range(m)]}
+            else: out[i] = {'pl': [rng.randrange(-m, m) for _ in range(rng.randint(1, 3))]}
+        else:
+            if role == 'scalar': out[i] = {'s': rng.choice(labs)}
+            elif rng.random() < 0.3: out[i] = {'m': [rng.random() < 0.6 for _ in range(m)]}
+            else: out[i] = {'l': [rng.choice(labs) for _ in range(rng.randint(1, 3))], 'as': rng.choice(['list', 'array'])}
+    stats['index_kind'][mode + ':mixed scalar/full/list on 3+ dims'] += 1
+    return out
+
 def generate(rng, n, tier, stats):
     cases = []
     while len(cases) < n:
@@ -91,6 +116,24 @@ def generate(rng, n, tier, stats):
             r = a['dims'][i] if rng.random() < 0.6 else i
             if r == 0: r = a['dims'][0]      # axis=0 means "no axis given"
             form = {'axis': [r, mk_idx(i)]}
+        if nd >= 3 and tol is None and spelling != 'nloc' and rng.random() < 0.35:
+            mv = mixed_valid_indices(rng, a, mode, stats)
+            if formk == 'tuple' or formk == 'axis': form = {'tuple': [mv.get(j, 'full') for j in range(nd)]}; formk = 'tuple'
+            else: form = {'dict': [[a['dims'][j], mv[j]] for j in sorted(mv)]}
+        num_dims = [i for i in range(nd) if a['axdtype'][i] in 'if' and a['labels'][i]]
+        if mode == 'label' and tol is None and spelling != 'nloc' and num_dims and rng.random() < 0.12:
+            # focused family: ONE dimension indexed with a list / array holding a label and a value that is NOT a label but becomes
+            # one when cast to the axis' dtype or rounded (2001.5 on an int axis, 2000.9999 ...); every other index is valid
+            i = rng.choice(num_dims); labs = a['labels'][i]; x = rng.choice(labs)
+            near = x + rng.choice([0.5, -0.5, 0.25, 0.75, -0.25, 1e-9])
+            if near in labs: near = x + 0.375
+            lst = [rng.choice(labs), near] if rng.random() < 0.5 else [near] + rng.sample(labs, min(len(labs), rng.randint(0, 2)))
+            mine = {'l': lst, 'as': rng.choice(['list', 'array'])}
+            other = lambda j: 'full' if (rng.random() < 0.6 or not a['labels'][j]) else {'s': rng.choice(a['labels'][j])}
+            if formk == 'tuple': form = {'tuple': [mine if j == i else other(j) for j in range(nd)]}
+            elif formk in ('dict', 'dictname'): form = {'dict': [[a['dims'][i], mine]]}
+            else: form = {'axis': [a['dims'][i], mine]}
+            stats['index_kind']['label:near-absent list'] += 1
         stats['form'][formk] += 1
         keepdims = spelling.startswith('take') and rng.random() < 0.15
         cases.append({'ins': [a], 'ops': [['get', spelling, form, tol, keepdims, by]]})
